@@ -265,6 +265,7 @@ def main(chk, replay=None):
         slices.append('float')
     slices.append('reordered')
     slices.append('many-par')
+    slices.append('offset-styles')
     mc_reader(chk)
     header_part(chk)
     for sl in slices:
